@@ -17,7 +17,7 @@ def sh(cmd, **kw):
 def main():
     only = sys.argv[1:]
     results = {}
-    for name in sorted(os.listdir(os.path.join(VERIF, 'seeded'))):
+    for name in sorted(n for n in os.listdir(os.path.join(VERIF, 'seeded')) if os.path.isdir(os.path.join(VERIF, 'seeded', n))):
         if only and name not in only and name.split('_')[0] not in only:
             continue
         d = os.path.join(VERIF, 'seeded', name)
